@@ -132,6 +132,9 @@ def compOracle (fn : String) (out : List String) : String :=
         match probs.filter (fun w => !(isRayOrCast && w.startsWith "tie")) with
         | [] => if probs.isEmpty then "pass" else "skip tie start-on-surface"
         | why :: _ =>
+          -- the composite misses the earliest part AND the real ball-vs-ball cast the visitor prunes that part's leaf with
+          -- reports no impact by then: the pruning primitive is not conservative (root cause outside the traversal)
+          if isNl && rest.any (· == ["primmiss"]) then s!"fail pruning-primitive-missed-impact {why}" else
           if isTie && !strict && (fn == "composite_it" || fn == "composite_point" || fn == "composite2_it" || fn == "composite2_point")
               && why.startsWith "verdict-differs" then "skip tie"
           else s!"fail {why}"
